@@ -357,14 +357,15 @@ func uniqFilter(a []any) (result []any) {
 		}
 		// the O(n^2) case:
 		for _, other := range result {
-			if eqItems(item, other) {
+			if eqItems(item, values.ToLiquid(other)) {
 				return true
 			}
 		}
 		return false
 	}
 	for _, item := range a {
-		if !seen(item) {
+		// a Drop is compared as the value it stands for
+		if !seen(values.ToLiquid(item)) {
 			result = append(result, item)
 		}
 	}
